@@ -3,7 +3,7 @@
 From Coq Require Import List NArith ZArith QArith Bool String.
 From Qryn Require Import model.TqSql model.Traceql model.TraceqlPlan model.TraceqlSem model.TraceqlCase
      proofs.TraceqlAnalyzeProofs proofs.TraceqlEvalProofs proofs.TraceqlSelectorProofs
-     model.TraceqlPortions proofs.TraceqlPortionsProofs.
+     model.TraceqlPortions proofs.TraceqlPortionsProofs proofs.TraceqlIndexSearchProofs proofs.TraceqlCorrectProofs.
 From Coq Require Import Sorted Lia.
 Import ListNotations.
 Open Scope string_scope.
@@ -106,4 +106,37 @@ Proof.
       * exfalso; apply Hn; cbn; tauto.
       * exfalso; apply Hn; cbn; tauto.
   - repeat constructor; cbn; lia.
+Qed.
+
+(* traceql_correct_single: its hypotheses hold of a concrete search -- { (.a = "b" && duration > 1s) || span.n > 5 || .a = "b" },
+   limit 1, over three traces (one span outside the window) -- and the conclusion, computed with the toy library functions:
+   the most recent matching trace t2 with its one matched span. *)
+Definition c0 : ctx :=
+  {| from_ns := 0; to_ns := 10; from_date := "d"; to_date := "d"; ffd_from := "d"; ffd_to := "d";
+     limit := 1; is_cluster := false; rf_max := 0; rf_i := 0; cached := [];
+     attrs_table := "t"; attrs_dist_table := "td"; traces_table := "tr"; traces_dist_table := "trd"; kv_dist_table := "kv" |}.
+Definition d0 : db :=
+  [R "a" "b" "t1" "s1" 5 2000000000; R "n" "7" "t1" "s1" 5 2000000000; R "n" "9" "t2" "s1" 7 1; R "n" "1" "t3" "s1" 8 1;
+   R "a" "b" "t2" "s2" 12 1].
+Lemma filter_len_le {A} (p : A -> bool) l : (List.length (filter p l) <= List.length l)%nat.
+Proof. induction l as [|x l IH]; [apply le_n|]. cbn [filter]. destruct (p x); cbn [List.length]; lia. Qed.
+Example single_hyps :
+  rf_max c0 = 0%Z /\ db_consistent c0 d0 /\ spans_capped c0 d0 /\ keys_ok e0 = true /\ forallb term_lit_ok terms0 = true
+  /\ (List.length terms0 <= 64)%nat /\ (cond_depth cd0 <= 28)%nat /\ lits_exact e0 = true
+  /\ exists s, plan (q1 e0 AONone) MSearch c0 1 = Ok s
+               /\ index_rows c0 d0 s = Some [("t2", ["s1"])]
+               /\ result_ok c0 (traceql_sem re_toy float_toy false c0 d0 (q1 e0 AONone)) [("t2", ["s1"])] = true.
+Proof.
+  split; [reflexivity|]. split; [|split].
+  - split.
+    + intros r Hr _. cbn [In d0] in Hr. repeat (destruct Hr as [<-|Hr]; [reflexivity|]). destruct Hr.
+    + intros a b Ha Hb. cbn [In d0] in Ha, Hb.
+      repeat (destruct Ha as [<-|Ha]); try (destruct Ha); repeat (destruct Hb as [<-|Hb]); try (destruct Hb);
+        intros E; try (split; reflexivity); vm_compute in E; discriminate.
+  - intros t. eapply Nat.le_trans; [apply filter_len_le|].
+    assert (E : List.length (spans_of c0 d0) = 3%nat) by (vm_compute; reflexivity). rewrite E. lia.
+  - split; [vm_compute; reflexivity|]. split; [vm_compute; reflexivity|]. split; [vm_compute; lia|]. split; [vm_compute; lia|].
+    split; [vm_compute; reflexivity|].
+    destruct (plan (q1 e0 AONone) MSearch c0 1) as [s| |] eqn:E; [|vm_compute in E; discriminate|vm_compute in E; discriminate].
+    exists s. split; [reflexivity|]. vm_compute in E. injection E as <-. vm_compute. split; reflexivity.
 Qed.
